@@ -51,8 +51,15 @@ func Dump() []G {
 	return out
 }
 
+// busy: anything that is not positively known to be a blocked state counts as able to run
+// (running, runnable, syscall, preempted, copystack, GC assist wait, ...).
 func busy(state string) bool {
-	return state == "running" || state == "runnable" || state == "syscall"
+	for _, p := range []string{"chan receive", "chan send", "select", "sleep", "semacquire", "sync.", "IO wait"} {
+		if strings.HasPrefix(state, p) {
+			return false
+		}
+	}
+	return true
 }
 
 // Quiet reports whether no goroutine other than the caller can run.
